@@ -11,14 +11,21 @@ using W = qsbr_ptr<std::uint8_t>;
 #ifndef STEPS
 #define STEPS 4
 #endif
+#ifndef NSLOT
 #define NSLOT 3
+#endif
+#ifndef BUFSZ
 #define BUFSZ 8
+#endif
+#ifndef NBUF
+#define NBUF 2
+#endif
 extern "C" {
 std::uint64_t gh_reg_count(void) noexcept;                 // ghost: number of registered pointers
 std::uint64_t gh_reg_mult(const void* p) noexcept;         // ghost: multiplicity of p
 std::uint64_t gh_reg_errors(void) noexcept;                // ghost: unregister calls for a pointer that was not registered
 }
-static std::uint8_t bufs[2][BUFSZ];
+static std::uint8_t bufs[NBUF][BUFSZ];
 struct slot { alignas(W) unsigned char mem[sizeof(W)]; bool alive; int b; long off; /* shadow: buffer (-1 = null) and offset */
   W& w() { return *std::launder(reinterpret_cast<W*>(mem)); } };
 static std::uint8_t* raw(const slot& s) { return s.b < 0 ? nullptr : &bufs[s.b][0] + s.off; }
@@ -67,7 +74,7 @@ HARNESS(h_qptr_seq) {
     const long n = static_cast<long>(in_range(0, 2 * BUFSZ)) - BUFSZ;
     slot& x = s[a]; slot& y = s[c];
     switch (op) {
-      case 0: if (!x.alive) { const int b = static_cast<int>(in_range(0, 1)); const long o = static_cast<long>(in_range(0, BUFSZ)); new (x.mem) W(&bufs[b][0] + o); x.alive = true; x.b = b; x.off = o; } break;   // from pointer
+      case 0: if (!x.alive) { const int b = static_cast<int>(in_range(0, NBUF - 1)); const long o = static_cast<long>(in_range(0, BUFSZ)); new (x.mem) W(&bufs[b][0] + o); x.alive = true; x.b = b; x.off = o; } break;   // from pointer
       case 1: if (!x.alive) { new (x.mem) W(); x.alive = true; x.b = -1; x.off = 0; } break;                                                    // default
       case 2: if (!x.alive && y.alive && a != c) { new (x.mem) W(y.w()); x.alive = true; x.b = y.b; x.off = y.off; } break;                      // copy ctor
       case 3: if (!x.alive && y.alive && a != c) { new (x.mem) W(std::move(y.w())); x.alive = true; x.b = y.b; x.off = y.off; y.b = -1; y.off = 0; } break;   // move ctor
